@@ -12,6 +12,7 @@ import Qfx.Lemmas.CodecDictStack
 import Qfx.Lemmas.CodecDictNest
 import Qfx.Lemmas.CodecAnyDict
 import Qfx.Lemmas.CodecTenWitness
+import Qfx.Lemmas.CodecDictItems
 import Qfx.Lemmas.CodecDictExample
 open Qfx Qfx.Spec
 
@@ -358,9 +359,101 @@ theorem C11_faithful_dict_wellnested (d : Dicts) (mt : Bytes) (fs : List DNode) 
   C11_faithful_dict_groups_anydepth d mt fs ha t8 t9 t35 t10 segs post hw8 hw9 hw35 hw10 h8 h9 h35 h10 hv
     (fun s hs => (hsegs s hs).ok) hpost hng10 hh10 hbl
 
+/-- THE SECTION MAPS UNDER DICTIONARIES, ANY ARRANGEMENT OF PLAIN FIELDS AND REPEATING GROUPS (the corrected `C11_retrievable_full` with
+    dictionaries; fixed code).  `fs` = the application dictionary's field list of the message type; the message is `8, 9, 35, items…, 10`
+    where `items` is ANY sequence (`ItemsN`, described from the dictionaries alone) of
+      * plain fields (tag ≠ 9, 10, 35, 212; not the count field of a group), and
+      * repeating groups of `fs`: count field + member fields that are well nested w.r.t. the dictionary (`GroupWalk`, any depth) over a
+        tag-disjoint tree (`TreeOK`),
+    a group being followed by ANYTHING whose tag its dictionary tree does not list: a plain body field, a HEADER or TRAILER field — built-in
+    or defined by the TRANSPORT dictionary only (user-defined tags; this is where the seeded change C11-m1 lives) —, DIRECTLY the count
+    field of another group, or CheckSum.  Then the parse succeeds, `Message.fields` = the wire's fields, `Bytes()` = the wire, and the three
+    section maps are EXACTLY the additions in wire order (`itmAdds`): every plain field added to the section `secOf d` assigns its tag
+    (transport dictionary ∪ built-in lists) as a one-field view, every group added to the body as ONE view over its count field and all its
+    member fields, CheckSum to the trailer; the member fields add nothing. -/
+theorem C11_sections_dict_items (d : Dicts) (mt : Bytes) (fs : List DNode) (ha : AppMsg d mt fs)
+    (t8 t9 t35 t10 : TagValue) (items : List Itm) (s' : Option (List DNode))
+    (hw8 : IsWire t8) (hw9 : IsWire t9) (hw35 : IsWire t35) (hw10 : IsWire t10)
+    (h8 : t8.tag = 8) (h9 : t9.tag = 9) (h35 : t35.tag = 35) (h10 : t10.tag = 10) (hv : t35.value = mt)
+    (hok : ItemsN d fs none items s') (hclose : ClosesN s') (hh10 : isHeaderField d 10 = false)
+    (hbl : atoi t9.value = .ok ((fieldsLength (t8 :: t9 :: t35 :: (flatItms items ++ [t10])) : Nat) : Int)) :
+    ∃ m, parseMessage Fixes.cur d (wireOf (t8 :: t9 :: t35 :: (flatItms items ++ [t10]))) = .ok m ∧
+      m.fields = t8 :: t9 :: t35 :: (flatItms items ++ [t10]) ∧
+      m.bytes Fixes.cur = .ok (wireOf (t8 :: t9 :: t35 :: (flatItms items ++ [t10])), m) ∧
+      ∀ s, m.sec s = applyAdds s (itmAdds d 3 items ++ [(Sec.t, 10, Field.view (3 + (flatItms items).length) 1)]) (initSec t8 t9 t35 s) := by
+  obtain ⟨so', hok', hso'⟩ := itemsN_ok hok none trivial
+  obtain ⟨m, h1, h2, h3, h4⟩ := parse_dict_items (d := d) ha t8 t9 t35 t10 items so' hw8 hw9 hw35 hw10 h8 h9 h35 h10 hv hok'
+    (closesN_ok hclose hso') hh10 hbl
+  exact ⟨m, h1, h2, by simp [Message.bytes, h3], h4⟩
+
+/-- RETRIEVABILITY, from the above: (a) a plain field at wire position `3 + |A|` is returned by `GetBytes` from the section of its tag with its
+    wire value, provided nothing later is added under the same tag to the same section (a later plain field with that tag in that
+    section, or — for body tags — a later group with that tag); (b) a group is found in the body as the field holding exactly its count
+    field and all its member fields, under the same proviso. -/
+theorem C11_retrievable_dict_items (d : Dicts) (mt : Bytes) (fs : List DNode) (ha : AppMsg d mt fs)
+    (t8 t9 t35 t10 : TagValue) (items : List Itm) (s' : Option (List DNode))
+    (hw8 : IsWire t8) (hw9 : IsWire t9) (hw35 : IsWire t35) (hw10 : IsWire t10)
+    (h8 : t8.tag = 8) (h9 : t9.tag = 9) (h35 : t35.tag = 35) (h10 : t10.tag = 10) (hv : t35.value = mt)
+    (hok : ItemsN d fs none items s') (hclose : ClosesN s') (hh10 : isHeaderField d 10 = false)
+    (hbl : atoi t9.value = .ok ((fieldsLength (t8 :: t9 :: t35 :: (flatItms items ++ [t10])) : Nat) : Int)) :
+    ∃ m, parseMessage Fixes.cur d (wireOf (t8 :: t9 :: t35 :: (flatItms items ++ [t10]))) = .ok m ∧
+      (∀ (A B : List Itm) (tv : TagValue), items = A ++ .plain tv :: B → tv.tag ≠ 10 →
+        (∀ a ∈ itmAdds d (3 + (flatItms A).length + 1) B, ¬ (a.1 = secOf d tv.tag ∧ a.2.1 = tv.tag)) →
+        (m.sec (secOf d tv.tag)).getBytes m.fields tv.tag = .ok tv.value) ∧
+      (∀ (A B : List Itm) (g0 : TagValue) (M : List TagValue), items = A ++ .group g0 M :: B → g0.tag ≠ 10 →
+        (∀ a ∈ itmAdds d (3 + (flatItms A).length + 1 + M.length) B, ¬ (a.1 = Sec.b ∧ a.2.1 = g0.tag)) →
+        ∃ f, alFind m.body.lookup g0.tag = some f ∧ f.items m.fields = g0 :: M) := by
+  obtain ⟨m, h1, h2, _, h4⟩ := C11_sections_dict_items d mt fs ha t8 t9 t35 t10 items s' hw8 hw9 hw35 hw10 h8 h9 h35 h10 hv hok hclose hh10 hbl
+  refine ⟨m, h1, ?_, ?_⟩
+  · intro A B tv hsplit hn10 hlater
+    have hadds : itmAdds d 3 items ++ [(Sec.t, (10 : Tag), Field.view (3 + (flatItms items).length) 1)] =
+        itmAdds d 3 A ++ (secOf d tv.tag, tv.tag, Field.view (3 + (flatItms A).length) 1) ::
+          (itmAdds d (3 + (flatItms A).length + 1) B ++ [(Sec.t, (10 : Tag), Field.view (3 + (flatItms items).length) 1)]) := by
+      rw [hsplit, itmAdds_append]; simp [itmAdds, List.append_assoc]
+    have hfind : alFind (m.sec (secOf d tv.tag)).lookup tv.tag = some (.view (3 + (flatItms A).length) 1) := by
+      rw [h4, hadds]
+      apply applyAdds_find_last
+      intro a ha'
+      simp only [List.mem_append, List.mem_singleton] at ha'
+      rcases ha' with e | e
+      · exact hlater a e
+      · subst e; intro h; exact hn10 h.2.symm
+    apply getBytes_view _ _ _ _ tv hfind
+    rw [h2, hsplit]
+    have hL : t8 :: t9 :: t35 :: (flatItms (A ++ .plain tv :: B) ++ [t10]) =
+        (t8 :: t9 :: t35 :: flatItms A) ++ tv :: (flatItms B ++ [t10]) := by
+      simp [flatItms, Itm.flat, List.flatMap_append]
+    rw [hL, List.getElem?_append_right (by simp; omega)]
+    have : 3 + (flatItms A).length - (t8 :: t9 :: t35 :: flatItms A).length = 0 := by simp; omega
+    rw [this]; rfl
+  · intro A B g0 M hsplit hn10 hlater
+    have hadds : itmAdds d 3 items ++ [(Sec.t, (10 : Tag), Field.view (3 + (flatItms items).length) 1)] =
+        itmAdds d 3 A ++ (Sec.b, g0.tag, Field.view (3 + (flatItms A).length) (1 + M.length)) ::
+          (itmAdds d (3 + (flatItms A).length + 1 + M.length) B ++ [(Sec.t, (10 : Tag), Field.view (3 + (flatItms items).length) 1)]) := by
+      rw [hsplit, itmAdds_append]; simp [itmAdds, List.append_assoc]
+    have hfind : alFind (m.sec .b).lookup g0.tag = some (.view (3 + (flatItms A).length) (1 + M.length)) := by
+      rw [h4, hadds]
+      apply applyAdds_find_last
+      intro a ha'
+      simp only [List.mem_append, List.mem_singleton] at ha'
+      rcases ha' with e | e
+      · exact hlater a e
+      · subst e; intro h; cases h.1
+    refine ⟨_, hfind, ?_⟩
+    rw [h2, hsplit]
+    have hL : t8 :: t9 :: t35 :: (flatItms (A ++ .group g0 M :: B) ++ [t10]) =
+        (t8 :: t9 :: t35 :: flatItms A) ++ ((g0 :: M) ++ (flatItms B ++ [t10])) := by
+      simp [flatItms, Itm.flat, List.flatMap_append]
+    have e : 3 + (flatItms A).length = (t8 :: t9 :: t35 :: flatItms A).length := by simp; omega
+    have e2 : 1 + M.length = (g0 :: M).length := by simp; omega
+    simp only [Field.items]
+    rw [hL, e, List.drop_left, e2, List.take_left]
+
 /-! non-vacuity of `SegOKN` (three nesting levels, a pop over two levels): Qfx/Lemmas/CodecDictExample.lean -/
 example := @exSegOKN
 example := @exSegNested
+/-! non-vacuity of `ItemsN`: a three-level group, DIRECTLY another group, DIRECTLY a user-defined trailer tag of the transport dictionary -/
+example := @exItemsN
 
 /-! non-vacuity of `SegOK` (a run with a two-entry NoPartyIDs group, nested NoPartySubIDs): Qfx/Lemmas/CodecDictExample.lean -/
 example := @exSegOK
@@ -470,6 +563,9 @@ example : (extractField [56, 61, 70, 1, 57, 61, 53, 1]).1 = [57, 61, 53, 1] := b
         C11_retrievable_nodict; app / transport+app dictionaries, messages without dictionary groups: C11_faithful_dict_nogroups;
         XMLData with its length (any dictionaries without groups): C11_faithful_xml; any number of dictionary groups with up to two
         nesting levels, plain fields between: C11_faithful_dict_groups (one group: C13_dict_flat_group_*, C13_dict_depth2_group_*);
+        ANY dictionaries, every well-formed wire message (fields, raw): C11_faithful_anydict (C11_checksum_member_swallowed: what an
+        absurd dictionary does); section maps = additions in wire order for any arrangement of plain fields and groups, incl. adjacent groups
+        and header/trailer fields (also user-defined transport tags) directly behind a group: C11_sections_dict_items, C11_retrievable_dict_items;
         any nesting depth: C11_faithful_dict_wellnested (runs described from the dictionary alone), C11_faithful_dict_groups_anydepth; groups directly adjacent / directly followed by a header or trailer
         field: C11_faithful_full, C11_retrievable_full (monitor)
         (monitor clauses accepts_wf, fields_faithful, parsed_sections, retrievable, raw_unchanged); field slicing: C11_extractField_slices
